@@ -282,7 +282,7 @@ def run_impl(case):
     was_enabled = gc.isenabled()
     gc.disable()
     try:
-        return _run(specs, cmds, objs, recs, swallowed, guard)
+        return _run(specs, cmds, objs, recs, swallowed, guard, L.falsy_mode(case))
     finally:
         guard.done()
         pop_exception_handler()
@@ -290,7 +290,7 @@ def run_impl(case):
             gc.enable()
 
 
-def _run(specs, cmds, objs, recs, swallowed, guard):
+def _run(specs, cmds, objs, recs, swallowed, guard, falsy=""):
     hits, tags, outs = [], set(), []
     D = set()          # links the history has definitely established (oracle's own book-keeping)
     U = set()          # registrations left behind by a sync_trait call that raised (unspecified by the property)
@@ -298,10 +298,12 @@ def _run(specs, cmds, objs, recs, swallowed, guard):
     crossed = set()    # traits that ever were one end of a List / non-List link (finding F61 stays with them)
     tainted = False    # a divergence was already reported: later differences are consequences
     tags.add("objs:%d" % len(objs))
+    if falsy:
+        tags.add("falsy:" + falsy)
 
     def born(i):
         if objs[i] is UNBORN:
-            objs[i] = L.make_class(specs[i])()
+            objs[i] = L.make_class(specs[i], falsy)()
             _attach(objs[i], recs[i], guard, specs[i])
 
     for ci, cmd in enumerate(cmds):
